@@ -281,6 +281,7 @@ type prioBuild struct {
 	Abort           <-chan struct{}
 	Entered         int           // simple: capacity of the entered channel
 	HandleExitDelay time.Duration // v1 Simple: time Handle needs to return once its context is cancelled
+	NilCtx          bool          // v1 variants: leave Opts.Ctx nil (the library must fall back to a background context)
 }
 
 func buildPrio(b prioBuild) (*prioSys, error) {
@@ -337,7 +338,11 @@ func buildPrio(b prioBuild) (*prioSys, error) {
 		out := make(chan v1prio.Prioritized[PItem], b.OutCap)
 		fb := make(chan uint, b.FbCap)
 		ctx, cancel := context.WithCancel(context.Background())
-		d, err := v1prio.New(v1prio.Opts[PItem]{Ctx: ctx, Divider: divV1, Feedback: fb, HandlersQuantity: b.H, Inputs: inputs, Output: out})
+		var optCtx context.Context = ctx
+		if b.NilCtx {
+			optCtx = nil
+		}
+		d, err := v1prio.New(v1prio.Opts[PItem]{Ctx: optCtx, Divider: divV1, Feedback: fb, HandlersQuantity: b.H, Inputs: inputs, Output: out})
 		if err != nil {
 			cancel()
 			return nil, err
@@ -437,7 +442,11 @@ func buildPrio(b prioBuild) (*prioSys, error) {
 			}
 			s.returned.Add(1)
 		}
-		d, err := v1prio.NewSimple(v1prio.SimpleOpts[PItem]{Ctx: ctx, Divider: divV1, Handle: handle, HandlersQuantity: b.H, Inputs: inputs})
+		var optCtx context.Context = ctx
+		if b.NilCtx {
+			optCtx = nil
+		}
+		d, err := v1prio.NewSimple(v1prio.SimpleOpts[PItem]{Ctx: optCtx, Divider: divV1, Handle: handle, HandlersQuantity: b.H, Inputs: inputs})
 		if err != nil {
 			cancel()
 			return nil, err
